@@ -219,6 +219,12 @@ pub fn check_counters<B: NetworkBehaviour>(node: usize, swarm: &Swarm<B>, m: &Mo
     let est_in = m.established.values().filter(|(_, o)| !*o).count() as u32;
     let est_out = m.established.values().filter(|(_, o)| *o).count() as u32;
     let ctx = || format!("node n{node} after {ev:?}: swarm pending_in={} pending_out={} est_in={} est_out={} peers={}; model pending_in={} pending_out={} est_in={est_in} est_out={est_out} peers={}", c.num_pending_incoming(), c.num_pending_outgoing(), c.num_established_incoming(), c.num_established_outgoing(), info.num_peers(), m.pending_in.len(), m.pending_out.len(), m.peers().len());
+    // C06 ("a denied connection is never counted"): judged right after the Denied error event
+    if let Ev::IncomingError { kind, id, .. } | Ev::OutgoingError { kind, id, .. } = ev {
+        if kind == "Denied" && (c.num_pending_incoming() != m.pending_in.len() as u32 || c.num_pending_outgoing() != m.pending_out.len() as u32 || c.num_established_incoming() != est_in || c.num_established_outgoing() != est_out) {
+            soft_violation(violation!("C06/denied-connection-counted", "connection {id} was denied by a behaviour but the counters still include it: {}", ctx()));
+        }
+    }
     ensure!(c.num_pending_incoming() == m.pending_in.len() as u32, "C02/pending-incoming", "{}", ctx());
     ensure!(c.num_pending_outgoing() == m.pending_out.len() as u32, "C02/pending-outgoing", "{}", ctx());
     ensure!(c.num_established_incoming() == est_in, "C02/established-incoming", "{}", ctx());
